@@ -54,6 +54,10 @@ def stepGraph (t : AdjTable) (toks : List String) : Option (AdjTable × String) 
     let d ← d.toNat?; let n ← n.toNat?; let s ← parseNats cells; let g ← lookupAdj t d 1
     if tieAtCut (holesSorted g (allCells d) (norm s)) (1 + n) then pure (t, "tie")
     else pure (t, showNats (fillHoles g (allCells d) (norm s) n))
+  | ["sp_fillk", d, k, cells] => do
+    -- `fill_holes_smaller_than(f)` with `f` strictly between k / n_cells and (k + 1) / n_cells
+    let d ← d.toNat?; let k ← k.toNat?; let s ← parseNats cells; let g ← lookupAdj t d 1
+    pure (t, showNats (fillHolesSmaller g (allCells d) (norm s) k))
   | ["sp_split", d, v, cells] => do
     let d ← d.toNat?; let v ← v.toNat?; let s ← parseNats cells; let g ← lookupAdj t d v
     pure (t, showComps (sortComps (splitAll g (norm s))))
